@@ -23,6 +23,18 @@ def _method(tree, cls, name):
     raise TranslatorAbort("%s.%s not found" % (cls, name))
 
 
+def _pin(node):
+    """Fingerprint with the text of raised WebErrors blanked (the text is extracted as data,
+    the status stays in the fingerprint)."""
+    import copy
+    node = copy.deepcopy(node)
+    for n in ast.walk(node):
+        if (isinstance(n, ast.Raise) and isinstance(n.exc, ast.Call) and n.exc.args
+                and isinstance(n.exc.args[0], ast.Constant) and isinstance(n.exc.args[0].value, str)):
+            n.exc.args[0] = ast.Constant(value="")
+    return dump_hash(node)
+
+
 def _http(e, where):
     if isinstance(e, ast.Attribute) and isinstance(e.value, ast.Name) and e.value.id == "http" and e.attr in HTTP:
         return HTTP[e.attr]
@@ -65,10 +77,10 @@ def generate():
     if len(codes) != 1:
         raise TranslatorAbort("render: expected exactly one setResponseCode")
     pins = {
-        "parse_range_header": dump_hash(prh),
-        "render": dump_hash(render),
-        "render_GET": dump_hash(_method(tree, "FileNodeHandler", "render_GET")),
-        "render_HEAD": dump_hash(_method(tree, "FileNodeHandler", "render_HEAD")),
+        "parse_range_header": _pin(prh),
+        "render": _pin(render),
+        "render_GET": _pin(_method(tree, "FileNodeHandler", "render_GET")),
+        "render_HEAD": _pin(_method(tree, "FileNodeHandler", "render_HEAD")),
     }
     o = [HEADER % ("webrange.py", SRC)]
     o.append("From Coq Require Import List NArith Bool String.\nFrom Verif Require Import Lib.Hex.\nImport ListNotations.\nLocal Open Scope N_scope.\n\n")
